@@ -56,7 +56,9 @@ class BeakerCacheImpl(CacheImpl):
 
         if "region" in kw:
             region = kw.pop("region")
-            cache = _beaker_cache.get_cache_region(self.cache.id, region, **kw)
+            # a region brings its own configuration; Beaker's
+            # get_cache_region() takes no further arguments
+            cache = _beaker_cache.get_cache_region(self.cache.id, region)
         else:
             cache = _beaker_cache.get_cache(self.cache.id, **kw)
         cache_args = {"starttime": self.cache.starttime}
